@@ -70,6 +70,12 @@ MUST_RETURN = {"node_copy", "deepcopy", "shallow_copy", "clone_tree", "get_subtr
                "tree_to_dict", "tree_to_dataframe", "find_names", "find_attrs", "find_children", "find_paths",
                "dag_copy", "dag_deepcopy", "dag_shallow_copy", "dag_iterator", "dag_to_list", "dag_to_dict",
                "dag_ancestors", "dag_descendants", "dag_siblings", "copy_nodes"}
+# functions that test nodes for truth (`if node:`, `if not child:`): with a user subclass whose leaves are falsy
+# (__len__ = number of children) the unchanged library drops leaves / raises "not found" there (reported; the class
+# of falsy-leaf subclasses is generated only for the other functions)
+FALSY_UNSAFE = {"clone_tree", "get_subtree", "prune_tree", "print_tree", "yield_tree", "hprint_tree", "hyield_tree", "show",
+                "hshow", "tree_to_mermaid", "copy_nodes_from_tree_to_tree", "copy_and_replace_nodes_from_tree_to_tree",
+                "copy_nodes"}
 NODE_ONLY = {"show", "hshow", "tree_to_newick", "tree_to_mermaid", "tree_to_dot", "find_relative_path",
              "find_relative_paths", "get_tree_diff_first", "get_tree_diff_second",
              "copy_nodes_from_tree_to_tree", "copy_and_replace_nodes_from_tree_to_tree", "copy_nodes"}
@@ -83,7 +89,9 @@ NAME_POOLS = {
     "special": ["a b", "(", "+", "a'", "0", "a1", "a", "10", "z", "q", "é", "_x"],
 }
 ATTR_VALUES = [1, 2, 90, "x", "yy", None, True, [1, 2], [3], ["p", "q"], [[1], 2], {"k": [1]}, {"u": 1}, [], 2.5,
-               0, "", False, {}]
+               0, "", False, {},
+               {"__t": [[0, 0], [4, 4]]}, {"__t": [{"k": [1]}, 2]}, [{"a": [1]}, {"b": 2}], {"k": [1], "m": [[2]]},
+               {"__t": [{"__t": [[7]]}, "s"]}]
 
 
 # ---------------------------------------------------------------------------------------------
@@ -95,14 +103,48 @@ def _bt():
     return bigtree
 
 
+def _decode(v):
+    """cases are JSON: {"__t": [...]} stands for a tuple (immutable container, possibly of mutable objects)"""
+    if isinstance(v, dict):
+        if set(v) == {"__t"}:
+            return tuple(_decode(x) for x in v["__t"])
+        return {k: _decode(x) for k, x in v.items()}
+    if isinstance(v, list):
+        return [_decode(x) for x in v]
+    return v
+
+
+def _fresh_attrs(attrs):
+    return _decode(json.loads(json.dumps(attrs)))         # every case gets its own value objects
+
+
 _SUB = {}
 _KEEP = []          # suspended generators of the current case (kept alive while the input is inspected)
 
 
-def _subclass():
-    """a user subclass of Node: extra class attribute, a property, an overriding method"""
+def _subclass(kind=True):
+    """user subclasses of Node.  True/"plain": extra class attribute, a property, an overriding method;
+    "eq": value semantics (__eq__ / __hash__ by name: distinct nodes can compare equal);
+    "falsy": __len__ = number of children (a leaf is falsy)"""
+    bt = _bt()
+    if kind == "eq":
+        if "eq" not in _SUB:
+            class EqNode(bt.Node):
+                def __eq__(self, other):
+                    return isinstance(other, bt.Node) and self.node_name == other.node_name
+
+                def __hash__(self):
+                    return hash(self.node_name)
+            _SUB["eq"] = EqNode
+        return _SUB["eq"]
+    if kind == "falsy":
+        if "falsy" not in _SUB:
+            class LenNode(bt.Node):
+                def __len__(self):
+                    return len(self.children)
+            _SUB["falsy"] = LenNode
+        return _SUB["falsy"]
     if "c" not in _SUB:
-        bt = _bt()
 
         class SubNode(bt.Node):
             kind = "sub"
@@ -123,17 +165,17 @@ def _build(cls, spec, sep="/", sub=False):
     nodes = []
     if cls == "DAGNode":
         for pars, name, attrs, slot in spec:
-            nodes.append(bt.DAGNode(name, **json.loads(json.dumps(attrs))))
+            nodes.append(bt.DAGNode(name, **_fresh_attrs(attrs)))
         for i, (pars, name, attrs, slot) in enumerate(spec):
             if pars:
                 nodes[i].parents = [nodes[q] for q in pars]
         return nodes
     for i, (par, name, attrs, slot) in enumerate(spec):
-        attrs = json.loads(json.dumps(attrs))         # every case gets its own value objects
+        attrs = _fresh_attrs(attrs)
         if cls == "BinaryNode":
             x = bt.BinaryNode(name, **attrs)
         else:
-            N = _subclass() if sub else bt.Node
+            N = _subclass(sub) if sub else bt.Node
             x = N(name, sep=sep, **attrs) if par is None else N(name, **attrs)
         nodes.append(x)
     for i, (par, name, attrs, slot) in enumerate(spec):
@@ -317,7 +359,13 @@ def _entry(ctx, x):
         kl = ctx.addr(pc)
         if ppars != pars or pkids != kids:
             pv = [ppars, pkids]
-    return {"p": pars, "k": kids, "nm": _name(x), "a": _attrs(ctx, x), "pv": pv, "kl": kl}
+    pt = 0
+    if not ctx.dag:
+        try:
+            pt = 1 + ctx.val(["path", x.sep, x.path_name])
+        except Exception:
+            pt = 1 + ctx.val(["path-error"])
+    return {"p": pars, "k": kids, "nm": _name(x), "a": _attrs(ctx, x), "pv": pv, "kl": kl, "pt": pt}
 
 
 def _walk(ctx):
@@ -445,7 +493,7 @@ def node_at(root, path, sep):
 def pairs_view(ctx, case, aux):
     out = []
     for anchor, path, exact in case.get("pairs", []):
-        x = node_at(aux[0], path, case.get("sep2", "/")) if aux else None
+        x = node_at(aux[0], path, case.get("sep", "/")) if aux else None
         t = {"id": ctx.n, "nm": "<missing>", "a": [], "kl": 0, "k": []} if x is None else _rt(ctx, x, set(), [400])
         out.append([anchor, bool(exact), t])
     return out
@@ -914,6 +962,10 @@ def _sig_attrs(sig):
     return [[e["nm"], [a[:2] for a in e["a"]]] for e in sig["e"]]
 
 
+def _sig_paths(sig):
+    return [e.get("pt", 0) for e in sig["e"]]
+
+
 def _rt_ids(t, acc):
     acc.append(t["id"])
     for k in t["k"]:
@@ -998,6 +1050,7 @@ def clauses(case, obs):
     b, a = obs["before"], obs["after"]
     cl["unchanged_links"] = _sig_links(b) == _sig_links(a)
     cl["unchanged_attrs"] = _sig_attrs(b) == _sig_attrs(a)
+    cl["unchanged_path"] = _sig_paths(b) == _sig_paths(a)
     res = obs["result"]
     if res is not None:
         ids = _rt_ids(res["t"], []) + res["up"] + [res["ret"]]
@@ -1028,6 +1081,8 @@ def clauses(case, obs):
     if obs["after_mr"] is not None:
         cl["indep_input_links"] = _sig_links(b) == _sig_links(obs["after_mr"])
         cl["indep_input_attrs"] = _sig_attrs(b) == _sig_attrs(obs["after_mr"])
+        # (a rename of a result node must not show; the input's own sep / path_name as before the call)
+        cl["indep_input_path"] = _sig_paths(b) == _sig_paths(obs["after_mr"])
     if obs["res1"] is not None:
         cl["indep_result_links"] = _rt_links(obs["res1"]) == _rt_links(obs["res2"])
         cl["indep_result_attrs"] = _rt_attrs(obs["res1"]) == _rt_attrs(obs["res2"])
@@ -1060,10 +1115,11 @@ def _active_findings():
     return _KF_CACHE["ids"]
 
 
-K4_CLAUSES = {"fresh_nodes", "fresh_lists", "fresh_vals", "indep_input_links", "indep_input_attrs",
+K4_CLAUSES = {"fresh_nodes", "fresh_lists", "fresh_vals", "indep_input_links", "indep_input_attrs", "indep_input_path",
               "indep_result_links", "indep_result_attrs"}
 K5_CLAUSES = {"fresh_vals", "indep_input_attrs", "indep_result_attrs"}
 K6_CLAUSES = {"equal_part"}
+K7_CLAUSES = {"unchanged_path", "indep_input_path"}
 
 
 def explained_by(case, obs):
@@ -1074,6 +1130,8 @@ def explained_by(case, obs):
     fn = case["fn"]
     if fn in ("shallow_copy", "dag_shallow_copy"):
         out["K4-C07"] = failing & K4_CLAUSES
+    if sep_written(case):
+        out["K7-C07"] = failing & K7_CLAUSES
     if fn == "clone_tree":
         if set(obs["in_vals"]) & set(obs["out_vals"]):
             out["K5-C07"] = failing & K5_CLAUSES
@@ -1112,7 +1170,7 @@ def _cattrs(a):
 
 def _centry(e):
     pv = "None" if e["pv"] is None else f"(Some ({_cnl(e['pv'][0])}, {_cids(e['pv'][1])}))"
-    return f"E {_cnl(e['p'])} {_cids(e['k'])} {cstr(e['nm'])} {_cattrs(e['a'])} {pv}"
+    return f"E {_cnl(e['p'])} {_cids(e['k'])} {cstr(e['nm'])} {_cattrs(e['a'])} {pv} {int(e.get('pt', 0))}"
 
 
 def _cdres(d):
@@ -1167,6 +1225,12 @@ def _cfn(case, obs):
     return "FCopyOut"
 
 
+def sep_written(case):
+    """get_tree_diff(tree, other_tree) sets other_tree.sep = tree.sep (helper.py:336): the input is other_tree and
+    the two separators differ"""
+    return case["fn"] == "get_tree_diff_second" and case.get("sep", "/") != case.get("sep2", "/")
+
+
 def emit(prop, case, obs):
     res = obs["result"]
     cres = "None" if res is None else f"(Some ({_crt(res['t'])}, {res['ret']}, {_cnl(res['up'])}))"
@@ -1185,6 +1249,7 @@ def emit(prop, case, obs):
         "None" if obs.get("dres12") is None else f"Some ({_cdres(obs['dres12'][0])}, {_cdres(obs['dres12'][1])})",
         clist(f"({int(a)}, {cbool(ex)}, {_crt(t)})" for a, ex, t in obs.get("pairs", [])),
         cbool(case.get("expect_ok", False)),
+        cbool(sep_written(case)),
     ]
     return "EC " + " ".join(f"({p})" for p in parts)
 
@@ -1258,7 +1323,11 @@ def gen_tree(rng, cls, nmax=9, shape=None, pool=None, attr_rate=0.6):
             used[p].add(nm)
         attrs = {}
         if rng.random() < attr_rate:
-            for key in rng.sample(["age", "tags", "meta", "w"], rng.randint(1, 2)):
+            keys = ["age", "tags", "meta", "w"]
+            if rng.random() < 0.2:
+                # names that collide with, or are affixes of, names the library uses itself
+                keys = keys + ["depth", "path", "n", "names", "name_en", "shift", "x", "y", "style", "label"]
+            for key in rng.sample(keys, rng.randint(1, 2)):
                 v = rng.choice(ATTR_VALUES)
                 if key == "tags" and rng.random() < 0.7:
                     v = rng.choice([[1, 2], ["p", "q"], [[1], 2], [3]])
@@ -1407,7 +1476,10 @@ def gen_copy_nodes_case(rng):
             continue
         q = rng.choice(cands)
         o = {"from_paths": [paths[j]], "to_paths": [paths[q] + sep + spec[j][1]], "sep": sep}
-        if any(s2[0] == q and s2[1] == spec[j][1] for s2 in spec):
+        existing = [i for i, s2 in enumerate(spec) if s2[0] == q and s2[1] == spec[j][1]]
+        if existing:
+            if j in _subtree(spec, existing[0]):
+                continue          # overriding an ancestor of the from-node removes the from-node's own ancestors
             o["overriding"] = True
         if rng.random() < 0.25:
             o["delete_children"] = True
@@ -1618,8 +1690,9 @@ def gen_case(rng, fn=None, cls=None, nmax=9):
             spec2, _, _ = gen_tree(rng, "Node", nmax=5, pool="distinct", attr_rate=0.3)
         spec2 = [[p, "t" + nm, at, sl] for p, nm, at, sl in spec2]
         case["tree2"] = spec2
-        case["sep2"] = sep
-        p2 = _paths(spec2, sep)
+        sep2 = sep if rng.random() < 0.5 else rng.choice(SEPS)
+        case["sep2"] = sep2
+        p2 = _paths(spec2, sep)          # every path argument is written with `sep`; the trees have their own
         k = rng.choice([1, 1, 2])
         cands = list(range(1, n)) or [0]
         rng.shuffle(cands)
@@ -1691,8 +1764,14 @@ def gen_case(rng, fn=None, cls=None, nmax=9):
         o["sep"] = sep
         if case.get("expect_ok") and any(not _unambiguous(paths, range(n), j) for j in fr):
             o["with_full_path"] = True       # from-paths are looked up by suffix unless this is set
-    if cls == "Node" and rng.random() < 0.15:
-        case["sub_cls"] = True
+    if cls == "Node":
+        r = rng.random()
+        if r < 0.12:
+            case["sub_cls"] = True
+        elif r < 0.20:
+            case["sub_cls"] = "eq"
+        elif r < 0.28 and fn not in FALSY_UNSAFE:
+            case["sub_cls"] = "falsy"
     if fn in MUST_RETURN:
         case["expect_ok"] = True
     return case
@@ -1841,7 +1920,11 @@ def rule(prop):
             "identity sets, result tree / DAG, then mutation batches on each side; multi-pair tree-to-tree copies (nested from-nodes, "
             "same node twice) with the copy at every destination compared to its source subtree; tree_to_dot / dag_to_dot on a single "
             "tree and on a list, with style dicts stored on the nodes and defaults set; generators also inspected while suspended "
-            "after 0-2 items; a user subclass of Node in 15% of the Node cases; falsy attribute values (0, '', False, [], {}); calls "
+            "after 0-2 items; user subclasses of Node (plain 12%, __eq__/__hash__ by name 8%, falsy leaves via __len__ 8% - the last "
+            "only for functions that do not test nodes for truth); falsy attribute values (0, '', False, [], {}); tuples holding "
+            "lists / dicts (mutated in place at every depth), lists of dicts, dicts of lists; attribute names that collide with "
+            "library names (depth, path, n, names, name_en, shift, x, y, style, label); the two trees of tree-to-tree calls have "
+            "different separators in half of the cases; calls "
             "that are valid by construction must return; non-trivial = >= 3 nodes and the call returned normally; distinct by "
             "canonical JSON hash")
 
@@ -1873,8 +1956,9 @@ def partial_clauses(prop):
     return [
         "C07 (all clauses): proved for the effect skeletons of Heap/Effects.v; that each API function performs exactly its "
         "skeleton's writes (deepcopy allocates, readers do not write) is checked at run time, not proved",
-        "get_tree_diff overwrites other_tree.sep (helper.py:336); `sep` is not among parent/children order/name/attributes, "
-        "so it is recorded per sample (sep_overwritten) and not raised",
+        "sep and path_name of every input node are part of the signature; get_tree_diff overwrites other_tree.sep "
+        "(helper.py:336): known finding K7-C07, matched only when the input is other_tree, the separators differ and nothing "
+        "but sep / path_name changed",
         "result_equal_part for prune_tree / get_subtree(max_depth) / get_tree_diff: C07 checks 'is an order-preserving part of "
         "the input' (resp. only freshness for the diff tree); which part exactly is C14 / C15",
         "copy_nodes at run time: plain / overriding / delete_children / with_full_path only (merge_children, merge_leaves are "
@@ -1894,7 +1978,10 @@ def partial_clauses(prop):
         "mutate-and-restore inside a call is only visible at the points where the harness looks (after the call, and while a "
         "generator is suspended), not inside filter / stop callbacks; (f) copy_nodes / copy_and_replace with several pairs "
         "whose DESTINATIONS interfere, merge_children / merge_leaves destinations: only 'source unchanged' and freshness; "
-        "(g) one mutation batch per side, no second call on the same tree",
+        "(g) one mutation batch per side, no second call on the same tree; (h) user subclasses whose leaves are falsy "
+        "(__len__ = number of children) are not generated for clone_tree, get_subtree, prune_tree, the print / yield family, "
+        "tree_to_mermaid and the copy_nodes* functions: the unchanged library tests nodes for truth there (`if _child:`, "
+        "`if not tree:`) and drops leaves or raises 'not found' (reported to the coordinator as a possible finding)",
     ]
 
 
